@@ -24,6 +24,11 @@ type verifPoolState struct {
 
 var verifPool verifPoolState
 
+const (
+	verifPoison    = 0xdb
+	verifPoisonLen = 96
+)
+
 // VerifPoolReset clears the tracking table and enables tracking.
 func VerifPoolReset() {
 	verifPool.mu.Lock()
@@ -59,6 +64,15 @@ func poolTrackGet(p *Packet) {
 		return
 	}
 	verifPool.gets++
+	if _, known := verifPool.owned[p]; known && p.buffer != nil {
+		for i := 0; i < verifPoisonLen; i++ {
+			if p.buffer[i] != verifPoison {
+				verifPool.violations = append(verifPool.violations,
+					fmt.Sprintf("packet %p was written to while it was in the pool (byte %d)\n%s", p, i, stack()))
+				break
+			}
+		}
+	}
 	if verifPool.owned[p] {
 		verifPool.violations = append(verifPool.violations,
 			fmt.Sprintf("Get returned a packet that is still owned: %p\n%s", p, stack()))
@@ -73,6 +87,15 @@ func poolTrackPut(p *Packet) {
 		return
 	}
 	verifPool.puts++
+	// Poison the start of the buffer. The write is ordered before the hand-over to the next Get
+	// by the pool channel; a stage that still reads the packet after returning it races with this
+	// write (visible to the race detector), and one that still writes to it destroys the pattern
+	// (checked by the next Get).
+	if p.buffer != nil {
+		for i := 0; i < verifPoisonLen; i++ {
+			p.buffer[i] = verifPoison
+		}
+	}
 	owned, known := verifPool.owned[p]
 	if known && !owned {
 		verifPool.violations = append(verifPool.violations,
